@@ -46,6 +46,7 @@ EDITS = (
     "join-different-engines",
     "calc-unsupported-expression",
     "sort-unsupported-expression",
+    "sel-reuses-join-predicate",
     "slice-negative",
     "slice-reversed",
     "slice-stepped",
@@ -185,6 +186,22 @@ def make_request(edit, rel, node, env, leaves, universe, opts, seed_expr, pick, 
             raise Skip()
         n2, r2 = cands[pick % len(cands)]
         return (lambda: rel.chain(r2)), (ColumnError,), f"chain with columns {set(r2.columns)} vs {cols}"
+    if edit == "sel-reuses-join-predicate":
+        # the predicate *object* of a join built earlier in the program, applied as a selection where a column is missing
+        from vf.core.expr import cols_p
+
+        joins = [n for n in walk(prog) if n[0] == "join" and n[3] is not None and id(n) in rels and cols_p(n[3])]
+        cands = []
+        for j in joins:
+            need = cols_p(j[3])
+            for n2 in walk(prog):
+                r2 = rels.get(id(n2))
+                if r2 is not None and not need <= set(r2.columns):
+                    cands.append((j, r2, n2))
+        if not cands:
+            raise Skip()
+        j, r2, n2 = cands[pick % len(cands)]
+        return (lambda: r2.with_rows_satisfying(lib_p(j[3]), **o)), (ColumnError,), f"sel {fmt_p(j[3])} (predicate object of an earlier join) on {fmt(n2, leaves)}"
     if edit in ("calc-unsupported-expression", "sort-unsupported-expression"):
         if not cols:
             raise Skip()
@@ -196,13 +213,28 @@ def make_request(edit, rel, node, env, leaves, universe, opts, seed_expr, pick, 
             pe = oo["preferred_engine"]
             pk = "sql" if isinstance(pe, sql.Engine) else "it"
             if pk != kind_here:
-                oo = {}
+                # a preferred engine of the supporting kind may legitimately take the operation (backtracking or
+                # transfer); if it cannot, the call must still raise - it must never park the operation in an engine
+                # that does not support the expression
+                classes_ok_if_wellformed = True
+            else:
+                classes_ok_if_wellformed = False
+        else:
+            classes_ok_if_wellformed = False
         if edit == "calc-unsupported-expression":
             if not missing:
                 raise Skip()
             tag = missing[0]
-            return (lambda: rel.with_calculated_column(tag, lib_e(e), **oo)), (EngineError,), f"calc {tag}={fmt_e(e)} in {rel.engine}"
-        return (lambda: rel.sorted([SortTerm(lib_e(e), True)], **oo)), (EngineError,), f"sort by {fmt_e(e)} in {rel.engine}"
+            return (
+                (lambda: rel.with_calculated_column(tag, lib_e(e), **oo)),
+                (EngineError,) + (("wellformed",) if classes_ok_if_wellformed else ()),
+                f"calc {tag}={fmt_e(e)} in {rel.engine}",
+            )
+        return (
+            (lambda: rel.sorted([SortTerm(lib_e(e), True)], **oo)),
+            (EngineError,) + (("wellformed",) if classes_ok_if_wellformed else ()),
+            f"sort by {fmt_e(e)} in {rel.engine}",
+        )
     if edit == "slice-negative":
         a = -1 - pick % 3
         if pick % 2:
@@ -244,6 +276,8 @@ def run_case(case, stats):
             return
         before = {id(n): fingerprint(rels[id(n)]) for n in nodes}
         ctx = f"edit {edit}: {what}; options {dict(opts) or 'default'}; target {fmt(node, leaves)} [{str(rel)[:160]}]"
+        wellformed_ok = "wellformed" in classes
+        classes = tuple(c for c in classes if c != "wellformed")
         try:
             out = call()
         except classes as e:
@@ -261,7 +295,15 @@ def run_case(case, stats):
                 sig=exc_sig(e),
             )
         else:
-            raise Violation("ill-formed-request-accepted", f"returned {str(out)[:200]}; {ctx}", edit=edit)
+            bad = None
+            if wellformed_ok:
+                from vf.core.wellformed import check_tree
+
+                bad = check_tree(out)
+                if bad is None:
+                    stats.c[f"accepted-in-supporting-engine:{edit}"] += 1
+            if not wellformed_ok or bad is not None:
+                raise Violation("ill-formed-request-accepted", f"returned {str(out)[:200]}{'' if bad is None else ' [' + bad[1][:200] + ']'}; {ctx}", edit=edit)
         for n in nodes:
             if fingerprint(rels[id(n)]) != before[id(n)]:
                 raise Violation("rejected-call-changed-a-relation", f"fingerprint of {fmt(n, leaves)} changed; {ctx}", edit=edit)
